@@ -3,7 +3,7 @@
    all kernel answers.  The functional post-condition on the tree ("exactly the
    missing directories") and the convergence of concurrent callers are decided by
    the snapshot and interleaving runs of tools/props/C12.py (see DESIGN.md: partial). *)
-From PV Require Import Discipline ProgTac PathProofs DisciplineProofs OpathDisc RootDisc OpsProofs FdBalance FdBalProofs RootBal.
+From PV Require Import Discipline ProgTac PathProofs DisciplineProofs OpathDisc RootDisc OpsProofs FdBalance FdBalProofs RootBal OpathBal BeneathProofs.
 Open Scope N_scope.
 
 Theorem C12_mode_checked :
@@ -27,6 +27,73 @@ Theorem C12_balanced :
     forall root path mode, bal (Rfd []) [] (root_mkdir_all fz cfg pfuel gh ps rs root path mode).
 Proof. intros. apply root_mkdir_all_bal; assumption. Qed.
 
+(* ... on either backend, no contract assumed (the emulated backend's partial lookup with its
+   symlink stack of Rc handles included: OpathBal.v) *)
+Theorem C12_balanced_all_backends :
+  forall fz cfg pfuel gh ps rs root path mode, bal (Rfd []) [] (root_mkdir_all fz cfg pfuel gh ps rs root path mode).
+Proof.
+  intros. destruct (rs_kernel rs) eqn:Hk.
+  - apply root_mkdir_all_bal; first [apply kernel_res_ok|apply kernel_resp_ok]; exact Hk.
+  - apply root_mkdir_all_bal; first [apply emu_res_ok|apply emu_resp_ok]; exact Hk.
+Qed.
+
+(* the directories are created as ONE chain, for all answers: mkdir_all is the argument checks,
+   the partial lookup, the re-open of the deepest existing directory and then the loop
+   [mk_parts] (C12_loop: by computation) over the remaining components, none of which is "",
+   "." or ".."; in that loop every mkdirat is made on the directory the chain has reached,
+   with a '/'-free name, and the only open is openat(that directory, that very name,
+   O_NOFOLLOW|O_DIRECTORY), whose result is where the chain continues; nothing else changes
+   the tree ([chain_ok], [chain] in proofs/BeneathProofs.v) *)
+Theorem C12_creation_is_one_chain :
+  forall fz mode (remaining : option bytes) current0,
+    let parts := filter (fun p => negb (noop_part p)) (match remaining with Some rm => raw_components rm | None => [] end) in
+    existsb is_dotdot parts = false ->
+    chain (@anyQ (result Z ekind)) (current0, None) (mk_parts fz mode parts current0).
+Proof. intros fz mode remaining current0 parts H. apply mk_parts_chain. apply mkdir_all_parts_ok. exact H. Qed.
+
+Theorem C12_loop :
+  forall fz cfg pfuel gh ps rs root path mode,
+  root_mkdir_all fz cfg pfuel gh ps rs root path mode =
+  (if negb (N.eqb (N.ldiff mode MKDIR_ALL_MASK1) 0) then Ret (Err InvalidArgument) else
+   if negb (N.eqb (N.ldiff mode MKDIR_ALL_MASK2) 0) then Ret (Err InvalidArgument) else
+   l <-? r_resolve_partial fz cfg pfuel gh ps rs root path false ;;
+   r <- match l with
+        | Complete fd => Ret (Ok (fd, None))
+        | Partial fd remaining e =>
+            if (match e with OsError n => N.eqb n ENOENT | _ => false end)
+            then Ret (Ok (fd, Some remaining))
+            else close fd ;;; Ret (Err e)
+        end ;;
+   match r with
+   | Err e => Ret (Err e)
+   | Ok (handle, remaining) =>
+       r <- h_reopen fz cfg pfuel gh handle MKDIR_ALL_REOPEN_FLAGS ;;
+       match r with
+       | Err e => frozen fz handle ;;; close handle ;;; Ret (Err e)
+       | Ok current0 =>
+           close handle ;;;
+           let parts := filter (fun p => negb (noop_part p)) (match remaining with Some rm => raw_components rm | None => [] end) in
+           if existsb is_dotdot parts then close current0 ;;; Ret (Err (OsError ENOENT))
+           else mk_parts fz mode parts current0
+       end
+   end).
+Proof. intros. reflexivity. Qed.
+
+Example C12_chain_examples :
+  chain_ok (5%Z, None) (Mkdirat 5 (b "new") 493) /\ ~ chain_ok (5%Z, None) (Mkdirat 6 (b "new") 493) /\
+  ~ chain_ok (5%Z, Some (b "new")) (Mkdirat 5 (b "other") 493) /\
+  chain_ok (5%Z, Some (b "new")) (Openat 5 (b "new") (N.lor O_NOFOLLOW O_DIRECTORY) 0) /\
+  ~ chain_ok (5%Z, Some (b "new")) (Openat 5 (b "new") O_DIRECTORY 0) /\
+  ~ chain_ok (5%Z, Some (b "new")) (Openat 5 (b "evil") (N.lor O_NOFOLLOW O_DIRECTORY) 0) /\
+  chain_step (5%Z, Some (b "new")) (Openat 5 (b "new") (N.lor O_NOFOLLOW O_DIRECTORY) 0) (RFd 9) = (9%Z, None).
+Proof.
+  unfold chain_ok. cbn [fst snd]. repeat split; try reflexivity; try discriminate.
+  - intros (H & _). discriminate.
+  - intros (_ & H & _). discriminate.
+  - intros (_ & _ & H & _). discriminate.
+  - intros (_ & H & _). discriminate.
+Qed.
+
 (* it cannot panic *)
 Theorem C12_no_unknown_panic :
   forall fz cfg pfuel gh ps rs root path mode,
@@ -41,3 +108,6 @@ Print Assumptions C12_mode_checked.
 Print Assumptions C12_calls_disciplined.
 Print Assumptions C12_balanced.
 Print Assumptions C12_no_unknown_panic.
+Print Assumptions C12_balanced_all_backends.
+Print Assumptions C12_creation_is_one_chain.
+Print Assumptions C12_loop.
